@@ -108,6 +108,7 @@ def induction(c):
 
 
 MUTANTS = [
+    dict(file=SM, func="_synparam_at", old="                tolerance=tolerance,\n", new="", contracts=["_synparam_at[select by contract]"], name="seed C04b: tolerance keyword dropped (select falls back to its own default)"),
     dict(file=SM, func="_synparam_at", old="bounded_selector = selector.clamp(min=0, max=value.duration)", new="bounded_selector = selector.clamp(min=0)", contracts=["_synparam_at[select by contract]"], name="delay not clamped to the supported maximum (select precondition breaks)"),
     dict(file=SM, func="_synparam_at", old="                tolerance=tolerance,\n", new="                tolerance=0.0,\n", contracts=["_synparam_at[select by contract]"], name="tolerance not forwarded to select"),
     dict(file=SM, func="_synparam_at", old="(selector - bounded_selector).abs() <= tolerance, res, overbound", new="(selector - bounded_selector).abs() <= tolerance, overbound, res", contracts=["_synparam_at[select by contract]"]),
